@@ -8,6 +8,7 @@ was split (`hint`); the model moves that block to the front of its modelled iter
 then runs the code's own selection.  A hint that is not a legitimate first choice makes the model
 split another block and shows up as a disagreement."""
 from common import Case, W, rand_value, errname, plist, tf
+import common
 from netaddr import IPNetwork
 from netaddr.contrib.subnet_splitter import SubnetSplitter
 
@@ -47,7 +48,7 @@ def _triple(n):
 
 def _drive(ver, v, p, plan):
     """run `plan(avail) -> op without hint | None` against the real implementation, filling in hints"""
-    s = SubnetSplitter(IPNetwork((v, p), version=ver))
+    s = SubnetSplitter(common.make_net(ver, v, p))
     ops = []
     while True:
         try:
@@ -60,7 +61,7 @@ def _drive(ver, v, p, plan):
         if op[0] == 'r':
             ops.append(op)
             try:
-                s.remove_subnet(IPNetwork((op[2], op[3]), version=op[1]))
+                s.remove_subnet(common.make_net(op[1], op[2], op[3]))
             except Exception:
                 break
             continue
